@@ -222,3 +222,86 @@ package slice
 //@
 //@ func LIS
 //@   ensures [C12] len(vs) == 0 ==> result == vs
+//@
+// C11 (edit.go). LCSFunc's contract is assumed here (checked by the bounded stand-in of C12): the result is a common
+// subsequence with strictly ascending ghost witnesses wa (into as) and wb (into bs). editScriptFunc is proved against
+// it: ghost offsets lp[k], rp[k] are the positions in lhs and rhs before edit k; every edit's X and Y are the very
+// spans of lhs and rhs at those offsets, an Emit covers equal elements, no edit is empty, and the offsets after the last
+// edit are the lengths of the inputs. Index safety of the two scan loops and of the run extension follows from the
+// witnesses being strictly ascending (the k-th remaining witness is at least k positions ahead), not from optimality.
+//@ func LCSFunc
+//@   role eq eqv
+//@   ghostret wa imap[int], wb imap[int]
+//@   ensures [assumed] common: forall k int :: {result[k]} 0 <= k && k < len(result) ==> 0 <= wa[k] && wa[k] < len(as) && 0 <= wb[k] && wb[k] < len(bs) && eqv(eq, as[wa[k]], result[k]) && eqv(eq, bs[wb[k]], result[k])
+//@   ensures [assumed] ascending: forall a int, b int :: {wa[a], wa[b]} {wb[a], wb[b]} 0 <= a && a <= b && b < len(result) ==> wa[b] - wa[a] >= b - a && wb[b] - wb[a] >= b - a
+//@   ensures [assumed] inputs: unchanged(elems(as)) && unchanged(elems(bs)) && (len(result) > 0 ==> fresh(result))
+//@
+//@ spec span(x Slice, s Slice, a int, b int) bool := x.base == s.base && x.off == s.off + a && len(x) == b - a && cap(x) == cap(s) - a
+//@ spec isOp(op EditOp) bool := op == OpDrop || op == OpEmit || op == OpCopy || op == OpReplace
+//@ pred editOK(e Edit[T], lhs Slice, rhs Slice, eq func(T, T) bool, l0 int, r0 int, l1 int, r1 int) := isOp(e.Op) && (isOp(e.Op) ==> 0 <= l0 && l0 <= l1 && l1 <= len(lhs) && 0 <= r0 && r0 <= r1 && r1 <= len(rhs))
+//@+     && (e.Op == OpDrop ==> l1 > l0 && r1 == r0 && span(e.X, lhs, l0, l1) && len(e.Y) == 0)
+//@+     && (e.Op == OpCopy ==> l1 == l0 && r1 > r0 && span(e.Y, rhs, r0, r1) && len(e.X) == 0)
+//@+     && (e.Op == OpReplace ==> l1 > l0 && r1 > r0 && span(e.X, lhs, l0, l1) && span(e.Y, rhs, r0, r1))
+//@+     && (e.Op == OpEmit ==> l1 > l0 && l1 - l0 == r1 - r0 && span(e.X, lhs, l0, l1) && len(e.Y) == 0 && (forall x int :: {lhs[x]} l0 <= x && x < l1 ==> eqv(eq, lhs[x], rhs[x - l0 + r0])))
+//@ pred scriptOK(out []Edit[T], lhs Slice, rhs Slice, eq func(T, T) bool, lp imap[int], rp imap[int]) := lp[0] == 0 && rp[0] == 0
+//@+     && (forall k int :: {out[k]} 0 <= k && k < len(out) ==> editOK(out[k], lhs, rhs, eq, lp[k], rp[k], lp[k + 1], rp[k + 1]))
+//@
+//@ pred scriptUpTo(out []Edit[T], lhs Slice, rhs Slice, eq func(T, T) bool, lp imap[int], rp imap[int], L int, R int) := scriptOK(out, lhs, rhs, eq, lp, rp) && lp[len(out)] == L && rp[len(out)] == R && (len(out) > 0 ==> fresh(out)) && old_arrays_unchanged(out)
+//@
+//@ func editScriptFunc
+//@   role eq eqv
+//@   ghostret lp imap[int], rp imap[int]
+//@   ensures [C11] script: len(result) > 0 ==> scriptOK(result, lhs, rhs, eq, lp, rp) && lp[len(result)] == len(lhs) && rp[len(result)] == len(rhs)
+//@   ensures [C11] same: len(result) == 0 ==> len(lhs) == len(rhs) && forall t int :: {lhs[t]} 0 <= t && t < len(lhs) ==> eqv(eq, lhs[t], rhs[t])
+//@   ensures [C11] inputs: unchanged(elems(lhs)) && unchanged(elems(rhs))
+//@   at after "lcs := LCSFunc(lhs, rhs, eq)": ghost wa = LCSFunc_wa
+//@   at after "lcs := LCSFunc(lhs, rhs, eq)": ghost wb = LCSFunc_wb
+//@   at after "lcs := LCSFunc(lhs, rhs, eq)": ghost lp[0] = 0
+//@   at after "lcs := LCSFunc(lhs, rhs, eq)": ghost rp[0] = 0
+//@   at after "out = append(out, Edit[T]{Op: OpReplace, X: lhs[lpos:lend], Y: rhs[rpos:rend]})": ghost lp[len(out)] = lend
+//@   at after "out = append(out, Edit[T]{Op: OpReplace, X: lhs[lpos:lend], Y: rhs[rpos:rend]})": ghost rp[len(out)] = rend
+//@   at after "out = append(out, Edit[T]{Op: OpDrop, X: lhs[lpos:lend]})": ghost lp[len(out)] = lend
+//@   at after "out = append(out, Edit[T]{Op: OpDrop, X: lhs[lpos:lend]})": ghost rp[len(out)] = rpos
+//@   at after "out = append(out, Edit[T]{Op: OpCopy, Y: rhs[rpos:rend]})": ghost lp[len(out)] = lend
+//@   at after "out = append(out, Edit[T]{Op: OpCopy, Y: rhs[rpos:rend]})": ghost rp[len(out)] = rend
+//@   at after "out = append(out, Edit[T]{Op: OpEmit, X: lhs[lpos : lpos+m]})": ghost lp[len(out)] = lpos + m
+//@   at after "out = append(out, Edit[T]{Op: OpEmit, X: lhs[lpos : lpos+m]})": ghost rp[len(out)] = rpos + m
+//@   at after "out = append(out, Edit[T]{Op: OpReplace, X: lhs[lpos:], Y: rhs[rpos:]})": ghost lp[len(out)] = len(lhs)
+//@   at after "out = append(out, Edit[T]{Op: OpReplace, X: lhs[lpos:], Y: rhs[rpos:]})": ghost rp[len(out)] = len(rhs)
+//@   at after "out = append(out, Edit[T]{Op: OpDrop, X: lhs[lpos:]})": ghost lp[len(out)] = len(lhs)
+//@   at after "out = append(out, Edit[T]{Op: OpDrop, X: lhs[lpos:]})": ghost rp[len(out)] = rpos
+//@   at after "out = append(out, Edit[T]{Op: OpCopy, Y: rhs[rpos:]})": ghost lp[len(out)] = len(lhs)
+//@   at after "out = append(out, Edit[T]{Op: OpCopy, Y: rhs[rpos:]})": ghost rp[len(out)] = len(rhs)
+//@   at after "out = append(out, Edit[T]{Op: OpReplace, X: lhs[lpos:lend], Y: rhs[rpos:rend]})": assert [C11] scriptUpTo(out, lhs, rhs, eq, lp, rp, lend, rend)
+//@   at after "out = append(out, Edit[T]{Op: OpDrop, X: lhs[lpos:lend]})": assert [C11] scriptUpTo(out, lhs, rhs, eq, lp, rp, lend, rpos)
+//@   at after "out = append(out, Edit[T]{Op: OpCopy, Y: rhs[rpos:rend]})": assert [C11] scriptUpTo(out, lhs, rhs, eq, lp, rp, lend, rend)
+//@   at after "out = append(out, Edit[T]{Op: OpEmit, X: lhs[lpos : lpos+m]})": assert [C11] scriptUpTo(out, lhs, rhs, eq, lp, rp, lpos + m, rpos + m)
+//@   at after "out = append(out, Edit[T]{Op: OpReplace, X: lhs[lpos:], Y: rhs[rpos:]})": assert [C11] scriptUpTo(out, lhs, rhs, eq, lp, rp, len(lhs), len(rhs))
+//@   at after "out = append(out, Edit[T]{Op: OpDrop, X: lhs[lpos:]})": assert [C11] scriptUpTo(out, lhs, rhs, eq, lp, rp, len(lhs), rpos)
+//@   at after "out = append(out, Edit[T]{Op: OpCopy, Y: rhs[rpos:]})": assert [C11] scriptUpTo(out, lhs, rhs, eq, lp, rp, len(lhs), len(rhs))
+//@   at before "m := 1": assert [C11] scriptUpTo(out, lhs, rhs, eq, lp, rp, lpos, rpos)
+//@   at before "if len(out) == 1 && out[0].Op == OpEmit": assert [C11] scriptUpTo(out, lhs, rhs, eq, lp, rp, len(lhs), len(rhs))
+//@   loop 1: invariant [C11] idx: 0 <= i && i <= len(lcs) && 0 <= lpos && lpos <= len(lhs) && 0 <= rpos && rpos <= len(rhs)
+//@   loop 1: invariant [C11] wit: forall j int :: {wa[j]} {wb[j]} i <= j && j < len(lcs) ==> wa[j] >= lpos + (j - i) && wb[j] >= rpos + (j - i)
+//@   loop 1: invariant [C11] script: scriptUpTo(out, lhs, rhs, eq, lp, rp, lpos, rpos) && (len(out) == 0 ==> cap(out) == 0)
+//@   loop 2: invariant [C11] lpos <= lend && lend <= wa[i] && i < len(lcs)
+//@   loop 2: decreases wa[i] - lend
+//@   loop 3: invariant [C11] rpos <= rend && rend <= wb[i] && i < len(lcs)
+//@   loop 3: decreases wb[i] - rend
+//@   loop 4: invariant [C11] run: 1 <= m && i + m <= len(lcs) && (i + m < len(lcs) ==> wa[i + m] >= lpos + m && wb[i + m] >= rpos + m)
+//@   loop 4: invariant [C11] equal: forall x int :: {lhs[x]} lpos <= x && x < lpos + m ==> eqv(eq, lhs[x], rhs[x - lpos + rpos])
+//@   loop 4: decreases len(lcs) - i - m
+//@
+//@ func equal
+//@   pure
+//@   ensures result == (a == b)
+//@
+// EditScript is editScriptFunc with == as the comparison (slice.equal, a one-line function; that the class function of
+// `equal` is injective, i.e. eqv(equal, a, b) <==> a == b, is read off its contract above and is not used below).
+//@ func EditScript
+//@   ghostret lp imap[int], rp imap[int]
+//@   ensures [C11] script: len(result) > 0 ==> scriptOK(result, lhs, rhs, equal, lp, rp) && lp[len(result)] == len(lhs) && rp[len(result)] == len(rhs)
+//@   ensures [C11] same: len(result) == 0 ==> len(lhs) == len(rhs) && forall t int :: {lhs[t]} 0 <= t && t < len(lhs) ==> eqv(equal, lhs[t], rhs[t])
+//@   ensures [C11] inputs: unchanged(elems(lhs)) && unchanged(elems(rhs))
+//@   at exit: ghost lp = editScriptFunc_lp
+//@   at exit: ghost rp = editScriptFunc_rp
